@@ -1,5 +1,6 @@
 import Norad.Props.C08C13
 import Norad.Props.C08
+import Norad.Props.C08Fault
 #print axioms C08.refusal_has_no_effects
 #print axioms C08.effects_only_after_validation
 #print axioms C08.refused_save_leaves_fs_version
@@ -18,3 +19,9 @@ import Norad.Props.C08
 #print axioms C08.source_save_order_matches_plan
 #print axioms C08.source_plan_refusal_has_no_effect
 #print axioms C08.source_refuses_whenever_model_does
+#print axioms C08.source_save_table_eq_model
+#print axioms C08.source_table_refusals_precede_wipe
+#print axioms C08.source_save_table_parses
+#print axioms C08.failed_save_stays_inside_target
+#print axioms C08.failed_save_leaves_partial_target
+#print axioms C08.fault_beyond_plan_is_save
